@@ -126,3 +126,56 @@ Proof.
   apply Z.ltb_lt in Hz. rewrite H0, Hz, Hp. reflexivity.
 Qed.
 End RefE.
+
+(* ---- heat capacity: `heat_capacity` is regenerated from LTE.calculate_heat_capacity (enthalpy oracle H) ---- *)
+Section HeatCapacity.
+(* the documented centred difference: (H(T(1+d)) - H(T(1-d))) / (2 d T) *)
+Definition heat_capacity_spec (H : R -> R) (T d : R) : R := (H (T * (1 + d)) - H (T * (1 - d))) / (2 * d * T).
+
+Lemma heat_capacity_eq_spec (H : R -> R) (T d : R) :
+  heat_capacity RNum H T d = heat_capacity_spec H T d.
+Proof.
+  unfold heat_capacity, heat_capacity_spec. cbv zeta. rnum.
+  f_equal; try ring.
+Qed.
+
+Lemma heat_capacity_default_delta_value : heat_capacity_default_delta RNum = 1 / 1000.
+Proof. unfold heat_capacity_default_delta. rnum. reflexivity. Qed.
+
+(* exact on enthalpies that are quadratic in T: the centred difference is the derivative *)
+Lemma heat_capacity_quadratic (a b c T d : R) : T <> 0 -> d <> 0 ->
+  heat_capacity RNum (fun x => a * x * x + b * x + c) T d = 2 * a * T + b.
+Proof. intros HT Hd. rewrite heat_capacity_eq_spec. unfold heat_capacity_spec. field. split; assumption. Qed.
+
+(* positive exactly when the enthalpy at the upper perturbed temperature exceeds the one at the lower *)
+Lemma heat_capacity_pos_iff (H : R -> R) (T d : R) : 0 < T -> 0 < d ->
+  (0 < heat_capacity RNum H T d <-> H (T * (1 - d)) < H (T * (1 + d))).
+Proof.
+  intros HT Hd. rewrite heat_capacity_eq_spec. unfold heat_capacity_spec.
+  assert (Hp : 0 < 2 * d * T) by (apply Rmult_lt_0_compat; [lra | assumption]).
+  split; intros Hx.
+  - set (D := H (T * (1 + d)) - H (T * (1 - d))) in *.
+    assert (HD : D = D / (2 * d * T) * (2 * d * T)) by (field; lra).
+    assert (0 < D); [|unfold D in *; lra].
+    rewrite HD. apply Rmult_lt_0_compat; assumption.
+  - apply Rdiv_lt_0_compat; lra.
+Qed.
+
+Lemma heat_capacity_pos_of_increasing (H : R -> R) (T d : R) : 0 < T -> 0 < d ->
+  (forall x y, x < y -> H x < H y) -> 0 < heat_capacity RNum H T d.
+Proof.
+  intros HT Hd Hinc. apply heat_capacity_pos_iff; try assumption. apply Hinc.
+  apply Rmult_lt_compat_l; lra.
+Qed.
+
+(* mean-value form: for a differentiable enthalpy the centred difference is the derivative at an intermediate temperature *)
+Lemma heat_capacity_mean_value (H H' : R -> R) (T d : R) : 0 < T -> 0 < d ->
+  (forall x, T * (1 - d) <= x <= T * (1 + d) -> derivable_pt_lim H x (H' x)) ->
+  exists xi, T * (1 - d) < xi < T * (1 + d) /\ heat_capacity RNum H T d = H' xi.
+Proof.
+  intros HT Hd Hder. rewrite heat_capacity_eq_spec. unfold heat_capacity_spec.
+  assert (Hlt : T * (1 - d) < T * (1 + d)) by (apply Rmult_lt_compat_l; lra).
+  destruct (MVT_cor2 H H' _ _ Hlt Hder) as [xi [Hxi Hin]].
+  exists xi. split; [exact Hin|]. rewrite Hxi. field. split; lra.
+Qed.
+End HeatCapacity.
